@@ -61,7 +61,10 @@ CLAIMED["C15"] = dict(level="model_checking", technique="stateless model checkin
 CLAIMED["C20"] = dict(level="model_checking", technique="explicit-state breadth-first search over key-cache states (reflective fingerprint) for every capacity, on the real unfolder with by-reference keys whose bytes are overwritten after each callback",
    text="Capacities 0-4 (thorough 0-6) x 5 targets x documents of 1-3 keys over a 5-key alphabet; reachable cache states explored to a fixpoint/depth bound; on every transition all results equal those of an unfolder without cache and earlier results are intact; an LRU reference labels hit/miss/eviction/re-insertion coverage.",
    note="5-key alphabet, documents of at most 3 keys", ref="DESIGN.md §5 C20")
-REASONS = {"C19": "check under construction in this round (cooperative scheduler); not claimed until it passes on the unchanged tree"}
+CLAIMED["C19"] = dict(level="model_checking", technique="cooperative scheduler owning every function entry / loop iteration of the instrumented library; all schedules up to a preemption bound of 2-3 goroutines on own instances over shared types/data; separate free-running -race pass",
+   text="Every schedule with at most B preemptions (quick 1, thorough 2; both start orders; thorough also 3 threads with B=1) of body pairs over shared Go types (first use in both / cached in one) is executed on the real code; every thread must return exactly its solo result, no panic, no step-budget overrun. Data races are delegated to a separate free-running pass of the same bodies in a -race build (happens-before analysis of those runs, not enumeration).",
+   note="sequential consistency at function/loop granularity; race clause decided by the race detector on free runs", ref="DESIGN.md §5 C19")
+REASONS = {}
 
 def main():
     na = []
